@@ -813,6 +813,8 @@ def c19_scripts(L, rnd, tier):
                     sc.chunk(1, rnd.choice([16, 16, 8, 5]))   # the instance's own mode, whatever the entry point
                 sc.offset(1, rnd.choice([0, 0, 7, 33]))
                 sc.asm_file(1, keys, path, count=cnt)
+                if n % 2:
+                    open(path + ".bin", "wb").write(b"\xee" * (20000 if n % 4 == 1 else 1))   # the output file exists already (longer / shorter)
                 sc.binfile(1, path + ".bin")
                 out.append(sc)
     # missing path, directory
